@@ -1086,3 +1086,31 @@ Section Options.
                  end
     end.
 End Options.
+
+(* ================================================================================================
+   12. OptionRecord.remove_nth_option(key, n): one pass; an option matches when its key is a PREFIX of `key`
+   (key[:len(curkey)] == curkey); the n-th match (0-based) is dropped together with a blank directly before it. *)
+Section OptionsNth.
+  Variable r_option r_KEY r_WS : positive.
+  Definition nth_match (key : text) (nd : node) : option bool :=
+    if is_option r_option nd then match get_key r_KEY nd with Some ck => Some (is_prefix ck key) | None => None end
+    else Some false.
+  Definition pop_ws (acc : list node) : list node :=
+    match acc with
+    | a :: acc' => if is_ws_tok r_WS a then acc' else acc
+    | [] => []
+    end.
+  Fixpoint remove_nth_go (key : text) (n i : nat) (acc l : list node) : option (list node) :=
+    match l with
+    | [] => Some (rev acc)
+    | nd :: tl =>
+        match nth_match key nd with
+        | None => None                                                    (* _get_key: NoSuchRuleException *)
+        | Some true => if Nat.eqb i n then remove_nth_go key n (S i) (pop_ws acc) tl
+                       else remove_nth_go key n (S i) (nd :: acc) tl
+        | Some false => remove_nth_go key n i (nd :: acc) tl
+        end
+    end.
+  Definition remove_nth_option (ch : list node) (key : text) (n : nat) : option (list node) :=
+    remove_nth_go key n 0 [] ch.
+End OptionsNth.
